@@ -116,7 +116,7 @@ func walkEntries(n *Node, rel string, f func(rel string, n *Node)) {
 func runPrestate(o *opts) {
 	r := newRng(o.seed)
 	s := newSummary("prestate", o.seed, o.tier)
-	n := 40
+	n := 80
 	if o.tier == "thorough" {
 		n = 500
 	}
@@ -267,7 +267,7 @@ func mutateForPrestate(r *rng, cur, orig *Node, digests map[string]string, kinds
 		n.sortEnts()
 		return n
 	}
-	switch r.intn(9) {
+	switch r.intn(10) {
 	case 0, 1:
 		kinds["absent"]++
 		return nil
@@ -310,6 +310,17 @@ func mutateForPrestate(r *rng, cur, orig *Node, digests map[string]string, kinds
 		return nDir(Ent{"inner", nFile([]byte("x"))})
 	}
 	kinds["dangling-link"]++
+	if r.chance(2, 3) {
+		// shaped like dud's own link to this very object, but into a cache that is not there (a link
+		// made before the file or the project was moved): it does not resolve, so it is in the way
+		for _, d := range sortedKeys(digests) {
+			if digests[d] == string(orig.Data) && len(d) > 2 {
+				kinds["dangling-link-named-like-the-object"]++
+				pre := []string{"/nonexistent-cache/", "../../../../moved/.dud/cache/", "gone/"}[r.intn(3)]
+				return &Node{Kind: "lo", Data: []byte(pre + d[:2] + "/" + d[2:])}
+			}
+		}
+	}
 	return &Node{Kind: "lo", Data: []byte("nowhere")}
 }
 
@@ -484,9 +495,64 @@ func runCorrupt(o *opts) {
 		s.count("pipeline")
 		rmrf(base)
 	}
+	// one stage, several outputs: the corrupted object belongs to a small output that is done long
+	// before a wide sibling output of the same stage is
+	nmulti := 3
+	if o.tier == "thorough" {
+		nmulti = 20
+	}
+	for i := 0; i < nmulti; i++ {
+		rr := r.fork()
+		base := scenarioDir(o, "corruptm", i)
+		p := newProject(o, base, []string{"in", "abs"}[rr.intn(2)])
+		p.init()
+		victimData := append([]byte("small sibling "), rr.bytes(5+rr.intn(30))...)
+		victimName := []string{"a_small.bin", "m_small.bin", "z_small.bin"}[i%3]
+		must(os.WriteFile(filepath.Join(p.Root, victimName), victimData, 0o644))
+		must(os.WriteFile(filepath.Join(p.Root, "k_other.bin"), append([]byte("healthy "), rr.bytes(300)...), 0o644))
+		must(os.MkdirAll(filepath.Join(p.Root, "n_wide", "sub"), 0o755))
+		for k := 0; k < 120; k++ {
+			name := fmt.Sprintf("n_wide/w%03d", k)
+			if k%4 == 0 {
+				name = fmt.Sprintf("n_wide/sub/w%03d", k)
+			}
+			must(os.WriteFile(filepath.Join(p.Root, name), append([]byte(fmt.Sprintf("wide %d ", k)), rr.bytes(20)...), 0o644))
+		}
+		p.writeStage("m.yaml", &StageRec{Out: []Art{{Path: victimName}, {Path: "k_other.bin"}, {Path: "n_wide", IsDir: true}}})
+		if res := p.dud("", "stage", "add", "m.yaml"); res.Exit != 0 {
+			must(fmt.Errorf("corrupt multi setup: %s", res.Stderr))
+		}
+		args := []string{"commit"}
+		if rr.chance(1, 2) {
+			args = append(args, "--copy")
+		}
+		if res := p.dud("", args...); res.Exit != 0 {
+			must(fmt.Errorf("corrupt multi commit: %s", res.Stderr))
+		}
+		for _, ob := range p.observe().Cache {
+			if string(ob.Data) == string(victimData) {
+				op := cachePathOf(p.CacheDir, ob.Digest)
+				must(os.Chmod(op, 0o644))
+				bad := append([]byte{}, victimData...)
+				bad[len(bad)/2] ^= 0x20
+				must(os.WriteFile(op, bad, 0o644))
+				must(os.Chmod(op, 0o444))
+			}
+		}
+		for _, x := range []string{victimName, "k_other.bin", "n_wide"} {
+			rmrf(filepath.Join(p.Root, x))
+		}
+		t, _ := p.do(Cmd{Kind: "checkout", Copy: true}, nil, want(5, 8, 13), nil, nil)
+		t.Info["step"] = "checkout --copy of a stage with three outputs, the smallest one's object corrupted"
+		tag([]*Transition{t}, "corrupt", 2000+i, map[string]interface{}{"kind": "multi-output"})
+		all = append(all, t)
+		distinct[fmt.Sprintf("multi%d", i)] = true
+		s.count("multi-output")
+		rmrf(base)
+	}
 	s.Cases = len(all)
 	s.Nontrivial = len(distinct)
-	s.Rule = "two-stage pipelines with the corrupted object upstream and only the downstream stage named; committed artifact x one reachable file object damaged (flip first/middle/last byte, truncate by 1 / to 0, append 1) then `dud checkout --copy` (twice) of the removed artifact or over the links the commit left; every case is non-trivial; distinct by (object, damage)"
+	s.Rule = "stages with three outputs (small corrupted file, file, 120-entry directory); two-stage pipelines with the corrupted object upstream and only the downstream stage named; committed artifact x one reachable file object damaged (flip first/middle/last byte, truncate by 1 / to 0, append 1) then `dud checkout --copy` (twice) of the removed artifact or over the links the commit left; every case is non-trivial; distinct by (object, damage)"
 	if len(all) > 0 {
 		s.Samples = append(s.Samples, all[0].Info)
 	}
@@ -537,7 +603,7 @@ func applyEdit(r *rng, p *Project, c *committed, abs string) string {
 			must(os.Chtimes(fp, old, old))
 		}
 	}
-	kind := []string{"flip", "truncate", "append", "add-file", "add-dir", "delete", "rename", "retarget", "dangle", "file-to-dir", "dir-to-file", "link-to-copy", "none", "edit-below-norec", "append-nul", "truncate-nul", "drop-object", "drop-object"}[r.intn(18)]
+	kind := []string{"flip", "truncate", "append", "add-file", "add-dir", "delete", "rename", "retarget", "dangle", "file-to-dir", "dir-to-file", "link-to-copy", "none", "edit-below-norec", "append-nul", "truncate-nul", "drop-object", "drop-object", "retarget", "retarget"}[r.intn(20)]
 	switch kind {
 	case "flip", "truncate", "append", "delete", "rename", "retarget", "dangle", "file-to-dir", "link-to-copy", "append-nul", "truncate-nul", "drop-object":
 		if len(files) == 0 {
@@ -770,11 +836,15 @@ func runHist(o *opts) {
 		abs := filepath.Join(p.Root, c.artPath)
 		steps := 1 + rr.intn(3)
 		w := c.w
+		lastOK := false
 		for k := 0; k < steps; k++ {
+			lastOK = false
 			ek := applyEdit(rr, p, c, abs)
-			if ek == "" || ek == "dangle" || ek == "retarget" || ek == "drop-object" {
-				// dangling / re-pointed links (also: links whose object was dropped from the cache) cannot be
-				// committed (by design); skip those edits
+			if ek == "" || ek == "dangle" || ek == "drop-object" {
+				// dangling links (also: links whose object was dropped from the cache) cannot be
+				// committed (by design); skip those edits. A link re-pointed at ANOTHER object of the
+				// cache (two committed files swapped, `cp -P`) is committed: that object's checksum
+				// is recorded
 				if ek != "" {
 					// undo is not possible in general: stop this history
 					break
@@ -782,7 +852,7 @@ func runHist(o *opts) {
 				continue
 			}
 			s.count("edit:" + ek)
-			sp := want(11, 7, 1)
+			sp := want(11, 7, 1, 14)
 			if c.kind == "file" && (ek == "delete" || ek == "rename" || ek == "file-to-dir") {
 				sp = want(5, 1) // the output itself vanished / changed kind: commit must refuse
 			}
@@ -796,6 +866,16 @@ func runHist(o *opts) {
 			w = w2
 			distinct[fmt.Sprintf("%d|%s", k, w.Root.coq())] = true
 			c.w = w
+			lastOK = true
+		}
+		if lastOK && rr.chance(2, 3) {
+			// the artifact is lost; checkout (either strategy) must bring back what the last commit saw
+			ref := logicalRoot(w)
+			rmrf(abs)
+			t, _ := p.do(Cmd{Kind: "checkout", Copy: rr.chance(1, 2)}, nil, want(11, 3), ref, nil)
+			t.Info["step"] = "checkout of the lost artifact after the history"
+			all = append(all, t)
+			s.count("final-checkout")
 		}
 		tag(all[len(all)-1:], "hist", i, map[string]interface{}{"kind": c.kind})
 		c.cleanup()
